@@ -13,12 +13,12 @@ import (
 type Expr interface{}
 
 type (
-	EIdent  struct{ Name string }
-	ELit    struct{ V *big.Int }
-	EBool   struct{ V bool }
-	EFloat  struct{ V float64 }
-	EStr    struct{ V string }
-	EUnary  struct {
+	EIdent struct{ Name string }
+	ELit   struct{ V *big.Int }
+	EBool  struct{ V bool }
+	EFloat struct{ V float64 }
+	EStr   struct{ V string }
+	EUnary struct {
 		Op string
 		X  Expr
 	}
@@ -40,8 +40,8 @@ type (
 		X Expr
 		T string
 	}
-	EType   struct{ T string } // type expression used as an argument (typeis)
-	EQuant  struct {
+	EType  struct{ T string } // type expression used as an argument (typeis)
+	EQuant struct {
 		Exists bool
 		Var    string
 		Lo, Hi Expr
